@@ -212,7 +212,9 @@ def sdmx_adjoint(job):
     from pyscf import dft
     rng = np.random.default_rng(job["seed"])
     viol, n = [], 0
-    mol = M.make_mol(job["mol"])
+    # basis layout is part of the quantifier: segmented (sto-3g), generally contracted shells with NCTR > 1
+    # (cc-pvdz) and polarisation functions (6-31g*) take different branches of the shell loops in fast_sdmx.c
+    mol = M.make_mol(job["mol"], basis=job.get("basis", "sto-3g"))
     g = dft.Grids(mol)
     g.atom_grid = (12, 26)
     g.build()
@@ -241,7 +243,7 @@ def sdmx_adjoint(job):
         n += 1
         # the convention of get_vxc_ (half / hermitian sum) is fixed by C01; here: proportionality with factor 1 or 1/2
         if not (abs(fd - ana) <= 1e-6 * (1 + abs(fd)) or abs(fd - 0.5 * ana) <= 1e-6 * (1 + abs(fd))):
-            viol.append({"site": "sdmx:vxc-not-transpose-of-feature-jacobian:%s" % kind, "detail": {"fd": fd, "analytic": ana}})
+            viol.append({"site": "sdmx:vxc-not-transpose-of-feature-jacobian:%s:%s" % (kind, job.get("basis", "sto-3g")), "detail": {"fd": fd, "analytic": ana}})
     return {"id": job["id"], "viol": viol, "n": n, "rec": None}
 
 
@@ -274,7 +276,9 @@ def main():
                 jobs.append({"id": k, "ver": ver, "level": "MGGA" if k % 3 else "GGA", "plan": "gaussian" if k % 2 else "spline", "interp": interp,
                              "mol": mol, "atom_grid": ag, "lmax": (10, 6, 3, 8)[k % 4], "rich": ver in ("i", "j") and k % 2 == 0, "seed": ck.seed + k})
                 k += 1
-    jobs.append({"id": k, "sdmx": True, "mol": "H2O", "seed": ck.seed})
+    for mname, basis in (("H2O", "sto-3g"), ("H2O", "cc-pvdz"), ("HF", "6-31g*"), ("H2", "aug-cc-pvdz")):
+        jobs.append({"id": k, "sdmx": True, "mol": mname, "basis": basis, "seed": ck.seed + k})
+        k += 1
     recs = []
     for threads in ((1, 3) if not quick else (1,)):
         for res in run_workers(os.path.abspath(__file__), jobs, nproc=16, timeout=7000, threads=threads):
